@@ -14,7 +14,8 @@ from vlib.core import Result, pmap, merge_results, SEED, quiet, load_known
 from vlib import geom
 from vlib.grids import position_grid, dense
 
-T_GRIDS = ["[0.3]", "[0.2, 0.35]", "[0.15, 0.3, 0.4]", "linspace(0.2, 0.8, 4)", "[0.1, 0.5]", "[0.314, 0.333, 0.507]", "[0.2718]"]
+T_GRIDS = ["[0.3]", "[0.2, 0.35]", "[0.15, 0.3, 0.4]", "linspace(0.2, 0.8, 4)", "[0.1, 0.5]", "[0.314, 0.333, 0.507]", "[0.2718]",
+           "[0.001, 0.0025]", "[2.5, 4.0, 4.5]", "[0.2, 0.3001, 0.4]", "linspace(0.1, 0.2, 8)"]
 
 
 def radii_of(text):
